@@ -245,8 +245,10 @@ contract(f"{NET}::Network.discover_services", "discover_services", vars=BASE, in
 contract(f"{NET}::Network.discover_address", "discover_address", vars=BASE, instances=SMALL, requires=PRE,
          call="net.discover_address(p1, (ip3, port3), svc, new3)", raises=[],
          ensures=["inv(net)", "(ip3, port3) in net._all_addresses or (ip3, port3) in net.blacklist",
-                  "net.get_verified_by_public_key_bin(k1) is not None"],
-         bounded=BOUND, replay=KEYS, note="Inv preserved; the introduced address becomes known; the introducer becomes verified. " + BOUND)
+                  "net.get_verified_by_public_key_bin(k1) is not None",
+                  # ... with a verified peer as its parent (an address known without a parent - loaded from a snapshot, or a peer's own - is adopted)
+                  "(ip3, port3) in net.blacklist or net._all_addresses[(ip3, port3)].introduced_by in net.verified_by_public_key_bin"],
+         bounded=BOUND, replay=KEYS, note="Inv preserved; the introduced address becomes known, parented by a verified peer; the introducer becomes verified. " + BOUND)
 
 
 # ---------------------------------------------------------------------------------------------------------------------
